@@ -380,6 +380,91 @@ func TestVerifC07BodyLimit(t *testing.T) {
 						}
 					}
 				}
+				// (6) fixed-length multipart/form-data bodies (pre-parsed by default, raw when
+				// pre-parsing is off): the declared length alone must decide, as for any fixed body.
+				// When the scaled total is too small to be a multipart entity it is only usable for
+				// the rejecting side: any real entity is then larger than the limit as well.
+				if v.Kind == "fixed" && len(real) <= 2 {
+					const pre = "--B\r\nContent-Disposition: form-data; name=\"f\"\r\n\r\n"
+					const post = "\r\n--B--\r\n"
+					mtr := tr
+					if mtr < len(pre)+len(post) && v.Expect == "rejected" {
+						mtr = len(pre) + len(post) + 3
+					}
+					if mtr >= len(pre)+len(post) && (mtr > lr) == (v.Expect == "rejected") {
+						val := c07Data(mtr - len(pre) - len(post))
+						mbody := []byte(pre + string(val) + post)
+						mreal := []int{mtr}
+						mhead := "POST /b HTTP/1.1\r\nHost: h\r\nContent-Type: multipart/form-data; boundary=B\r\nContent-Length: " + strconv.Itoa(mtr) + "\r\n\r\n"
+						for _, noPre := range []bool{false, true} {
+							name := "server/multipart"
+							if noPre {
+								name = "server/multipart-no-preparse"
+							}
+							k := fmt.Sprintf("mp%d/%v", lr, noPre)
+							sv := servers[k]
+							if sv == nil {
+								sv = &Server{MaxRequestBodySize: lr, DisablePreParseMultipartForm: noPre, Logger: c07NoLog{},
+									Handler: func(ctx *RequestCtx) {
+										c, ok := ctx.Conn().(*c07Conn)
+										if !ok {
+											return
+										}
+										c.dispatches = append(c.dispatches, string(ctx.RequestURI()))
+										var got []byte
+										if f, err := ctx.MultipartForm(); err == nil && len(f.Value["f"]) == 1 {
+											got = []byte(f.Value["f"][0])
+										}
+										c.bodies = append(c.bodies, got)
+									}}
+								servers[k] = sv
+							}
+							c := &c07Conn{segs: [][]byte{[]byte(mhead), mbody, canary}}
+							sv.ServeConn(c) //nolint:errcheck
+							st := c07FirstStatus(c.out.Bytes())
+							if len(c.dispatches) > 0 && c.dispatches[0] == "/b" {
+								okc := bytes.Equal(c.bodies[0], val) && len(c.dispatches) == 2 && c.dispatches[1] == "/canary"
+								n := mtr
+								if !okc {
+									n = len(c.bodies[0])
+								}
+								h.check(name, &v, lr, mreal, "accepted", n, okc, false, fmt.Sprintf("dispatches %v", c.dispatches))
+							} else {
+								ok := len(c.dispatches) == 0 && st >= 400 && c.closed
+								h.check(name, &v, lr, mreal, "rejected", 0, false, ok, fmt.Sprintf("status %d, dispatches %v, closed %v", st, c.dispatches, c.closed))
+							}
+						}
+						for _, noPre := range []bool{false, true} {
+							name := "Request.ReadLimitBody/multipart"
+							r := &c07Conn{segs: [][]byte{[]byte(mhead), mbody}}
+							br := bufio.NewReader(r)
+							var req Request
+							var err error
+							if noPre {
+								name = "Request.ContinueReadBody/multipart-no-preparse"
+								if err = req.Header.Read(br); err == nil {
+									err = req.ContinueReadBody(br, lr, false)
+								}
+							} else {
+								err = req.ReadLimitBody(br, lr)
+							}
+							if err == nil {
+								got := ""
+								if f, ferr := req.MultipartForm(); ferr == nil && len(f.Value["f"]) == 1 {
+									got = f.Value["f"][0]
+								}
+								n := mtr
+								if got != string(val) {
+									n = len(got)
+								}
+								h.check(name, &v, lr, mreal, "accepted", n, got == string(val), false, "")
+								req.RemoveMultipartFormFiles()
+							} else {
+								h.check(name, &v, lr, mreal, "rejected", 0, false, errors.Is(err, ErrBodyTooLarge), "error "+err.Error())
+							}
+						}
+					}
+				}
 			case "probe":
 				// identity-until-close response, pieces = reads
 				{
